@@ -10,7 +10,7 @@ PROPERTY = "C10"
 RULE = ("Generated structures (all four term kinds, with/without tables and extra columns, unique atom ids). For each "
         "structure with N<=Nmax EVERY non-empty subset of atom indices is deleted from a fresh copy, listed sorted, "
         "reversed and shuffled (list and numpy array); pop() and pop(i) for every i; random subsets for N up to 40; "
-        "deletions from structures of 1e5..3e5 atoms whose terms sit on the last atoms (large index values). "
+        "deletions from structures of 1e5..3e5 atoms whose terms sit on the last atoms (large index values), and of 12-45 scattered atoms at once from structures of thousands. "
         "After each deletion the real object is resolved (type ids -> text) and compared with the reference model's "
         "delete. A case (= one structure) is non-trivial if some deletion removed a term and some term survived a "
         "deletion; distinct by generator seed.")
@@ -34,6 +34,9 @@ def cases(tier, seed):
     for j in range(nrand):
         out.append({"kind": "random", "n": int(rng.integers(8, 41)), "s": int(rng.integers(1 << 30)), "cell": ["ortho", "tri", None][j % 3],
                     "ndel": 6})
+    # a few thousand atoms, a small fragment with terms (atoms shared between terms), a few dozen scattered atoms deleted at once
+    for j in range(12 if tier == "quick" else 600):
+        out.append({"kind": "large", "n": int(rng.integers(1500, 6000)), "s": int(rng.integers(1 << 30)), "cell": "ortho", "ndel": 3, "many": True})
     for j in range(3 if tier == "quick" else 40):
         out.append({"kind": "large", "n": int([100200, 200300, 300100][j % 3] + rng.integers(0, 90)), "s": int(rng.integers(1 << 30)), "cell": "ortho", "ndel": 3})
     return out
@@ -91,7 +94,10 @@ def run_case(case, ctx):
         ids = m0.ids()
         for _ in range(case["ndel"]):
             # a few atoms from the bulk (shifts every later index) and a few of the last 16 (removes terms)
-            sub = [int(x) for x in rng.choice(n - 16, size=int(rng.integers(0, 4)), replace=False)] + [int(x) for x in n - 16 + rng.choice(16, size=int(rng.integers(1, 4)), replace=False)]
+            nbulk = int(rng.integers(12, 45)) if case.get("many") else int(rng.integers(0, 4))
+            sub = [int(x) for x in rng.choice(n - 16, size=nbulk, replace=False)] + [int(x) for x in n - 16 + rng.choice(16, size=int(rng.integers(0 if case.get("many") else 1, 4)), replace=False)]
+            if case.get("many"):
+                st.count("deletions_of_a_dozen_or_more_scattered_atoms")
             rng.shuffle(sub)
             _one(a, m0, [ids[i] for i in sub], sub, ctx, st, "del")
             st.count("deletions_from_structures_with_more_than_1e5_atoms")
@@ -109,11 +115,13 @@ def run_case(case, ctx):
             listings.append(np.array(sh, dtype=int))
             if len(sub) <= 3:
                 listings.append(tuple(sub))
+            else:
+                listings.append([np.int64(i) for i in reversed(sub)])       # a list of numpy integers, as np.where()[0] yields them
             for li, lst in enumerate(listings):
                 r, s = _one(a, m0, [ids[i] for i in sub], lst, ctx, st, "del")
                 any_removed |= r > 0
                 any_survived |= s > 0
-                st.seen("listing", ["sorted", "reversed", "shuffled-array", "tuple"][li])
+                st.seen("listing", ["sorted", "reversed", "shuffled-array", "tuple" if len(sub) <= 3 else "list-of-numpy-integers"][li])
             st.count("subsets_enumerated")
         st.seen("exhaustive_sizes", n)
         # pop() removes the last atom, pop(i) the i-th
@@ -156,6 +164,8 @@ def requirements(stats, tier):
         need.append("not all four term kinds were present in some structure")
     if stats.get("deletions_from_structures_with_more_than_1e5_atoms") < (9 if tier == "quick" else 120):
         need.append("deletions from structures with more than 1e5 atoms: %d" % stats.get("deletions_from_structures_with_more_than_1e5_atoms"))
+    if stats.get("deletions_of_a_dozen_or_more_scattered_atoms") < (30 if tier == "quick" else 1500):
+        need.append("deletions of a dozen or more scattered atoms from a structure of thousands: %d" % stats.get("deletions_of_a_dozen_or_more_scattered_atoms"))
     if stats.get("pops_checked") < 20:
         need.append("pop not observed")
     if stats.get("contract_eval.C10.delitem_post") < stats.get("deletions_checked"):
